@@ -212,6 +212,9 @@ def spelled(t, sp):
         return expr_src(t)
     if sp == 'lambda':
         return 'lambda pkt, **k: ' + expr_src(t, 'pkt.')
+    if sp == 'rem':
+        # a callable that inspects the raw buffer: "as many as there are bytes left"
+        return 'lambda pkt, raw, offset, **k: len(raw) - offset'
     raise ValueError(sp)
 
 
@@ -355,15 +358,24 @@ def until_src(u):
         return 'lambda pkt, **k: pkt.%s[-1]%s == %r' % (u['fname'], attr, u['v'])
     if u['u'] == 'len_eq':
         return 'lambda pkt, **k: len(pkt.%s) == %r' % (u['fname'], u['v'])
+    if u['u'] == 'at_end':
+        return 'lambda pkt, raw, offset, **k: offset >= len(raw)'
+    if u['u'] == 'off_ge':
+        return "lambda pkt, offset, **k: offset - k['innermost-pkt-pos'] >= %r" % (u['v'],)
     raise ValueError(u)
 
 
-def until_eval(u, lst):
+def until_eval(u, lst, cur=None, P0=None, rawlen=None):
+    """the condition sees the list built so far and the cursor after the latest element"""
     if u['u'] == 'last_eq':
         last = lst[-1]
         if u.get('attr'):
             last = last.vals[u['attr']]
         return last == u['v']
+    if u['u'] == 'at_end':
+        return cur >= rawlen
+    if u['u'] == 'off_ge':
+        return cur - P0 >= u['v']
     return len(lst) == u['v']
 
 
